@@ -11,5 +11,5 @@ CONSTANTS
     NilMapGuard = TRUE
 SPECIFICATION UnfairSpec
 INVARIANTS MutualExclusionPerName
-PROPERTIES LockReturns UnlockReturns
+PROPERTIES LockReturns
 CHECK_DEADLOCK FALSE
